@@ -85,7 +85,51 @@ def gen_direct_case(rnd):
     return {'ell': ell, 'lat1': lat1, 'lon1': lon1, 'az': az, 's': s, 'argt': argt, 'kind': kind}
 
 
+# ---------------------------------------------------------------------------------------------
+# calls a user may make that the properties do not speak about (outside the stated domain, or plainly invalid):
+# their results are NOT judged, exceptions are swallowed - but a judged call made afterwards must be as right as before
+# ---------------------------------------------------------------------------------------------
+def gen_unjudged_calls(rnd, fn):
+    out = []
+    for _ in range(rnd.choice([1, 1, 2])):
+        ell = rnd.choice(['grs80', 'grs80', 'wgs84', 'ans', [6378200.0, 299.5]])
+        if fn == 'vincinv':
+            la = rnd.choice([0.0, 0.0, rnd.uniform(-60, 60), rnd.uniform(-1, 1), 90.0])
+            lo = rnd.uniform(-180, 180)
+            k = rnd.random()
+            if k < 0.55:      # nearly antipodal: the iteration is known not to converge there
+                la2, lo2 = -la + rnd.choice([0.0, 0.3, -0.2, 0.01, rnd.uniform(-0.6, 0.6)]), lo + 180.0 - rnd.choice([0.0, 0.5, 0.2, rnd.uniform(0, 0.7)])
+            elif k < 0.7:
+                la2, lo2 = -la, lo + 180.0
+            elif k < 0.8:
+                la2, lo2 = rnd.choice([91.0, -95.0, 200.0]), lo
+            elif k < 0.9:
+                la2, lo2 = float('nan'), lo
+            else:
+                la2, lo2 = 'x', lo
+            out.append({'fn': 'vincinv', 'args': [la, lo, la2, lo2], 'ell': ell})
+        else:
+            la = rnd.choice([rnd.uniform(-89, 89), 90.0, -90.0, 95.0])
+            k = rnd.random()
+            if k < 0.4:
+                args = [la, rnd.uniform(-180, 180), rnd.uniform(0, 360), rnd.choice([2.1e7, 4.1e7, 1e9, -5000.0])]
+            elif k < 0.6:
+                args = [la, rnd.uniform(-180, 180), rnd.choice([-10.0, 361.0, 720.5]), rnd.uniform(1, 1e6)]
+            elif k < 0.8:
+                args = [la, rnd.uniform(-180, 180), float('nan'), rnd.uniform(1, 1e6)]
+            else:
+                args = [la, rnd.uniform(-180, 180), 'x', rnd.uniform(1, 1e6)]
+            out.append({'fn': 'vincdir', 'args': args, 'ell': ell})
+    return out
+
+
+def run_unjudged_calls(ns, ctx, case):
+    for call in case.get('before') or ():
+        core.unjudged(ctx, getattr(ns.geodesy, call['fn']), *call['args'], tmwork.ell_obj(ns, call['ell']))
+
+
 def judge_direct(ns, ctx, case):
+    run_unjudged_calls(ns, ctx, case)
     ell = tmwork.ell_obj(ns, case['ell'])
     a, invf = tmwork.ell_published(case['ell'])
     argt = case.get('argt', 'float')
@@ -234,6 +278,7 @@ def _lever(s, a):
 
 
 def judge_inverse(ns, ctx, case, aspects=('closure', 'reverse', 'symmetry', 'shift')):
+    run_unjudged_calls(ns, ctx, case)
     ell = tmwork.ell_obj(ns, case['ell'])
     a, invf = tmwork.ell_published(case['ell'])
     la1, lo1, la2, lo2 = case['lat1'], case['lon1'], case['lat2'], case['lon2']
